@@ -7,6 +7,25 @@ Maps are functions `Int → Int → Rat` with explicit dimensions `h w`.
 -/
 namespace Model
 
+/-! The pieces of the refinement / elevation kernels used by the model below are HAND-WRITTEN (they used to be extracted
+piecewise from the source); the tie to the source is the pair of theorems `C03.refine_center_is_generated` /
+`C03.evaluate_one_is_generated`, which prove the model built from these pieces equal to the kernels translated as a whole
+(`Gen.refine_center`, `Gen.evaluate_one`) on every run. -/
+/-- clipped refinement radius of `refine_center` -/
+def refine_r (r : Int) (y : Int) (x : Int) (s0 : Int) (s1 : Int) : Int :=
+  (min (min (min (min r y) x) ((s0 - y) - (1 : Int))) ((s1 - x) - (1 : Int)))
+
+/-- guard: return the integer centre unrefined -/
+def refine_guard (r : Int) : Bool := (decide (r ≤ (0 : Int)))
+def cut_lo (c r : Int) : Int := (c - r)
+def cut_hi (c r : Int) : Int := ((c + r) + (1 : Int))
+def refined_coord (c : Int) (com : Rat) (r : Int) : Rat := ((((c : Int) : Rat) + com) - ((r : Int) : Rat))
+/-- refinement radius passed by `evaluate_correlations` -/
+def refine_radius : Int := (2 : Int)
+/-- default `r_min` of `peak_elevation` (the call in `evaluate_correlations` does not override it) -/
+def elev_rmin : Rat := ((3 : Rat) / 2)
+def elev_in_range (dist r_min : Rat) : Bool := (decide (dist ≥ r_min))
+
 /-- which source index of the inverse FFT output lands at index `j` after the shift
 (`ifftshift` = roll by `-(n//2)`, `fftshift` = roll by `+(n//2)`) -/
 def shiftSrc (kind : String) (n j : Int) : Int :=
@@ -36,25 +55,25 @@ deriving Repr
 
 /-- `refine_center(center, radius, corrmap)` -/
 def refineCenter (corr : Int → Int → Rat) (h w cy cx : Int) (radius : Int) : Rat × Rat :=
-  let r := Gen.refine_r radius cy cx h w
-  if Gen.refine_guard r then ((cy : Rat), (cx : Rat)) else
-  let lo_y := Gen.cut_lo cy r
-  let lo_x := Gen.cut_lo cx r
-  let n := Gen.cut_hi cy r - lo_y
-  let m := Gen.cut_hi cx r - lo_x
+  let r := Model.refine_r radius cy cx h w
+  if Model.refine_guard r then ((cy : Rat), (cx : Rat)) else
+  let lo_y := Model.cut_lo cy r
+  let lo_x := Model.cut_lo cx r
+  let n := Model.cut_hi cy r - lo_y
+  let m := Model.cut_hi cx r - lo_x
   let cut : Int → Int → Rat := fun y x => corr (lo_y + y) (lo_x + x)
   let mn := minList (flat cut n m)
   let s := lsum (flat (fun (y x : Int) => cut y x - mn) n m)
   let sy := lsum (flat (fun (y x : Int) => (cut y x - mn) * (y : Rat)) n m)
   let sx := lsum (flat (fun (y x : Int) => (cut y x - mn) * (x : Rat)) n m)
-  (Gen.refined_coord cy (sy / s) r, Gen.refined_coord cx (sx / s) r)
+  (Model.refined_coord cy (sy / s) r, Model.refined_coord cx (sx / s) r)
 
 /-- square of `peak_elevation(refined, corrmap, height)` before the final `max(0, ·)`;
 all slopes are non-negative because `height` is the maximum of the map -/
 def elevation2 (corr : Int → Int → Rat) (h w : Int) (py px height : Rat) : Option Rat :=
   let cands := (irange h).flatMap fun (y : Int) => (irange w).filterMap fun (x : Int) =>
     let d2 := ((y : Rat) - py) ^ 2 + ((x : Rat) - px) ^ 2
-    if Gen.elev_rmin * Gen.elev_rmin ≤ d2 then some ((height - corr y x) ^ 2 / d2) else none
+    if Model.elev_rmin * Model.elev_rmin ≤ d2 then some ((height - corr y x) ^ 2 / d2) else none
   match cands with
   | [] => none
   | c :: t => some (t.foldl (fun a b => rmin a b) c)
@@ -65,7 +84,7 @@ def evaluate (corr : Int → Int → Rat) (h w : Int) : EvalOut :=
   let cy := idx / w
   let cx := idx % w
   let height := corr cy cx
-  let rf := refineCenter corr h w cy cx Gen.refine_radius
+  let rf := refineCenter corr h w cy cx Model.refine_radius
   { cy := cy, cx := cx, height := height, ry := rf.1, rx := rf.2,
     elev2 := elevation2 corr h w rf.1 rf.2 height }
 
